@@ -1,4 +1,5 @@
 import Pcore.Proofs.LatSoundMain
+import Pcore.Proofs.LatReflAll
 set_option linter.unusedSimpArgs false
 set_option linter.unusedVariables false
 /-! C04: inferred types contain their values. -/
@@ -87,11 +88,12 @@ theorem names_nodup (es : List (Val × Val)) (hn : KeysNodup es) (hs : ∀ e ∈
     simp only [this, if_true] at h1
     omega
 
-/-- neither Array nor Hash (hereditarily through Sensitive); type values are well-formed members of the transitivity fragment -/
+/-- neither Array nor Hash (hereditarily through Sensitive); type values are well-formed (any type of the model: reflexivity holds for
+    every well-formed type, `asg_refl_all`) -/
 def Val.Leafy (cfg : Cfg) : Val → Prop
   | .array _ | .hash _ => False
   | .sensitive v => Val.Leafy cfg v
-  | .typ t => t.TF ∧ Ty.WF cfg t
+  | .typ t => Ty.WF cfg t
   | _ => True
 
 theorem ptype_leafy (v : Val) (h : Val.Leafy cfg v) : inst cfg sfh (ptype cfg sfh v) v = true := by
@@ -99,7 +101,7 @@ theorem ptype_leafy (v : Val) (h : Val.Leafy cfg v) : inst cfg sfh (ptype cfg sf
   | .sensitive v, h => unfold ptype; unfold inst; exact ptype_leafy v h
   | .typ t, h =>
     unfold ptype; unfold inst
-    exact asg_refl cfg sfh t.w t (Nat.le_refl _) h.2 (Ty.TF.noAlias t.w t (Nat.le_refl _) h.1)
+    exact asg_refl_all cfg sfh t.w t (Nat.le_refl _) h
   | .obj p, _ => unfold ptype; unfold inst; simp [isPrefix_refl]
   | .undef, _ => unfold ptype; unfold inst; rfl
   | .dflt, _ => unfold ptype; unfold inst; rfl
@@ -275,8 +277,8 @@ theorem ptypeFoldV_eq (sfh : Bool) (acc : Ty) (es : List (Val × Val)) :
 /-- the fold invariant of `privateReducedType`: every element seen so far is an instance of the accumulator -/
 theorem ptypeFold_inv (hl : ∀ s, (cfg.lower s).length = s.length) (G TV : Ty → Prop) (U : InferFam cfg sfh G TV) :
     ∀ (vs : List Val) (acc : Ty) (seen : List Val), G acc →
-      (∀ x ∈ seen, inst cfg sfh acc x = true ∧ x.OK ∧ Val.TyOK cfg x) →
-      (∀ x ∈ vs, inst cfg sfh (ptype cfg sfh x) x = true ∧ G (ptype cfg sfh x) ∧ x.OK ∧ Val.TyOK cfg x) →
+      (∀ x ∈ seen, inst cfg sfh acc x = true ∧ x.OK ∧ Val.TyOKS cfg sfh x) →
+      (∀ x ∈ vs, inst cfg sfh (ptype cfg sfh x) x = true ∧ G (ptype cfg sfh x) ∧ x.OK ∧ Val.TyOKS cfg sfh x) →
       G (ptypeFold cfg sfh acc vs) ∧ ∀ x ∈ seen ++ vs, inst cfg sfh (ptypeFold cfg sfh acc vs) x = true := by
   intro vs
   induction vs with
@@ -317,7 +319,7 @@ theorem good_leaf (t : Ty) (h : match t with
 
 /-- first law, given a family on which `commonType` is a well-behaved upper bound: by induction on the value, with the fold invariant -/
 theorem ptype_inst (hl : ∀ s, (cfg.lower s).length = s.length) (G TV : Ty → Prop) (U : InferFam cfg sfh G TV) :
-    ∀ (n : Nat) (v : Val), v.w ≤ n → v.OK → Val.TyOK cfg v → Val.AllTyp TV v →
+    ∀ (n : Nat) (v : Val), v.w ≤ n → v.OK → Val.TyOKS cfg sfh v → Val.AllTyp TV v →
       inst cfg sfh (ptype cfg sfh v) v = true ∧ G (ptype cfg sfh v) := by
   intro n
   induction n with
@@ -355,7 +357,7 @@ theorem ptype_inst (hl : ∀ s, (cfg.lower s).length = s.length) (G TV : Ty → 
         unfold ptype
         exact ⟨by unfold inst; simp [Rng.contains, instAll], U.arr0⟩
       | cons x xs =>
-        have hel : ∀ y ∈ x :: xs, inst cfg sfh (ptype cfg sfh y) y = true ∧ G (ptype cfg sfh y) ∧ y.OK ∧ Val.TyOK cfg y := by
+        have hel : ∀ y ∈ x :: xs, inst cfg sfh (ptype cfg sfh y) y = true ∧ G (ptype cfg sfh y) ∧ y.OK ∧ Val.TyOKS cfg sfh y := by
           intro y hy
           obtain ⟨h1, h2⟩ := ih y (by have := Val.w_lt_wl hy; omega) (ok.elems y hy) (tv.elems y hy) (at'.elems y hy)
           exact ⟨h1, h2, ok.elems y hy, tv.elems y hy⟩
@@ -377,14 +379,14 @@ theorem ptype_inst (hl : ∀ s, (cfg.lower s).length = s.length) (G TV : Ty → 
         exact ⟨by unfold inst; simp [Rng.contains, instEntries], U.hash0⟩
       | cons e0 es0 =>
         obtain ⟨k0, v0⟩ := e0
-        have hk : ∀ y ∈ ((k0, v0) :: es0).map (·.1), inst cfg sfh (ptype cfg sfh y) y = true ∧ G (ptype cfg sfh y) ∧ y.OK ∧ Val.TyOK cfg y := by
+        have hk : ∀ y ∈ ((k0, v0) :: es0).map (·.1), inst cfg sfh (ptype cfg sfh y) y = true ∧ G (ptype cfg sfh y) ∧ y.OK ∧ Val.TyOKS cfg sfh y := by
           intro y hy
           simp only [List.mem_map] at hy
           obtain ⟨e, he, rfl⟩ := hy
           have hwe := Val.w_lt_we he
           obtain ⟨h1, h2⟩ := ih e.1 (by omega) (ok.keys e he) (tv.keys e he) (at'.keys e he)
           exact ⟨h1, h2, ok.keys e he, tv.keys e he⟩
-        have hv : ∀ y ∈ ((k0, v0) :: es0).map (·.2), inst cfg sfh (ptype cfg sfh y) y = true ∧ G (ptype cfg sfh y) ∧ y.OK ∧ Val.TyOK cfg y := by
+        have hv : ∀ y ∈ ((k0, v0) :: es0).map (·.2), inst cfg sfh (ptype cfg sfh y) y = true ∧ G (ptype cfg sfh y) ∧ y.OK ∧ Val.TyOKS cfg sfh y := by
           intro y hy
           simp only [List.mem_map] at hy
           obtain ⟨e, he, rfl⟩ := hy
